@@ -16,10 +16,10 @@ PROPERTY = "C03"
 FN = "maltoolbox.language.languagegraph:LanguageGraph._get_attacks_for_asset_type"
 SCOPE = {
     "quick": "every inheritance chain of depth 1..4 over one step name and of depth 1..3 over two step names, each level "
-             "declaring each step as absent / '->' / '+>' / without reaches clause (4^d resp. 16^d mixes) - plain, with a "
-             "'+>' sibling under every level, and with the asset list reversed (sibling+reversed: one step name, and "
-             "depth 2 for two); plus 1500 seeded two-step chains of depth 4; every type looked up four times in "
-             "alternating order, regeneration, two attack graphs",
+             "declaring each step as absent / '->' / '+>' / without reaches clause (4^d resp. 16^d mixes) - plain and with a "
+             "'+>' sibling under every level; with the asset list reversed: one step name all, two step names depth 2 all "
+             "and a seeded quarter of depth 3; plus 800 seeded two-step chains of depth 4; every type looked up twice, in "
+             "both orders, then regeneration and two attack-graph generations, each followed by another round of lookups",
     "thorough": "as quick, plus every chain of depth 4 over two step names (65536 mixes) plain and a seeded third of them "
                 "with siblings / reversed asset list, plus 3000 seeded chains of depth 5-6",
 }
@@ -52,7 +52,8 @@ def cases(tier, seed):
     for d in (2, 3):
         for m in _mixes(d):
             yield {"kinds": list(m), "sib": 1, "rev": 0}
-            yield {"kinds": list(m), "sib": 0, "rev": 1}
+            if d == 2 or tier == "thorough" or rnd.random() < 0.25:
+                yield {"kinds": list(m), "sib": 0, "rev": 1}
             if d == 2 or tier == "thorough":
                 yield {"kinds": list(m), "sib": 1, "rev": 1}
     per_level = ["".join(p) for p in itertools.product(L.KINDS, repeat=2)]
@@ -65,7 +66,7 @@ def cases(tier, seed):
             d = rnd.randint(5, 6)
             yield {"kinds": [rnd.choice(per_level) for _ in range(d)], "sib": int(rnd.random() < 0.5), "rev": int(rnd.random() < 0.3)}
     else:
-        for _ in range(1500):
+        for _ in range(800):
             yield {"kinds": [rnd.choice(per_level) for _ in range(4)], "sib": int(rnd.random() < 0.5), "rev": int(rnd.random() < 0.3)}
 
 
@@ -102,8 +103,8 @@ def _lookup(r, lg, t, phase):
         return None
 
 
-def _compare(r, spec0, t, got, phase):
-    want = L.steps_ref(spec0, t)
+def _compare(r, wants, t, got, phase):
+    want = wants[t]
     ok = True
     for n in sorted(set(got) | set(want)):
         g, w = got.get(n), want.get(n)
@@ -118,6 +119,9 @@ def _compare(r, spec0, t, got, phase):
     if ok:
         r.check("C03.fold", True, FN)
     return ok
+
+
+_ALONE = {}     # per process: kinds of a chain prefix -> steps s/u its last type exposes in the language cut down to that prefix
 
 
 def run_case(recipe):
@@ -145,23 +149,24 @@ def run_case(recipe):
         return r
     assert lg._lang_spec is spec
     pure("LanguageGraph(spec)")
+    wants = {t: L.steps_ref(spec0, t) for t in types}        # the fold of the statement, from the untouched snapshot
+    spec_objs = L.containers(spec, "spec")                   # every dict / list of the live specification
 
     # lookups: every type, twice, in both orders; each answer against the fold, and against the first answer
     first = {}
-    for phase, order in (("first pass", types), ("second pass (reverse order)", list(reversed(types))),
-                         ("third pass", types), ("fourth pass (reverse order)", list(reversed(types)))):
+    for phase, order in (("first pass", types), ("second pass (reverse order)", list(reversed(types)))):
         for t in order:
             got = _lookup(r, lg, t, phase)
             if got is None:
                 continue
-            _compare(r, spec0, t, got, phase)
+            _compare(r, wants, t, got, phase)
             if t in first:
                 r.check("C03.repeatable", got == first[t], FN,
                         "%s: lookup of %s differs from the first answer" % (phase, t), "answer-changes-between-lookups")
             else:
                 first[t] = copy.deepcopy(got)
             # separation: no dict / list of the answer is an object of the specification
-            sh = L.shared(got, spec)
+            sh = [(p, spec_objs[i]) for i, p in L.containers(got, "result").items() if i in spec_objs]
             if sh:
                 p = sh[0][0]
                 kind = ("shared-stepExpressions-list" if p.endswith("['stepExpressions']") else
@@ -176,19 +181,24 @@ def run_case(recipe):
     # language-graph step nodes carry the same answer
     for a in lg.assets:
         got = {s.name: s.attributes for s in a.attack_steps}
-        if got != L.steps_ref(spec0, a.name):
+        if got != wants[a.name]:
             r.check("C03.fold", False, "maltoolbox.language.languagegraph:LanguageGraph._generate_graph",
                     "attack steps of language-graph asset %s differ from the fold" % a.name, "fold:language-graph-nodes")
 
     # independence of descendants / siblings: the same types in the language cut down to the chain prefix
     for i, t in enumerate(chain):
-        cut = L.chain_language(kinds[:i + 1], False, False)
-        try:
-            lg2 = LanguageGraph(copy.deepcopy(cut))
-            alone = lg2._get_attacks_for_asset_type(t)
-        except Exception as e:
-            r.check("C03.no-crash", False, FN, "prefix language raised %s" % type(e).__name__, "construct-raises:" + type(e).__name__)
-            continue
+        key = "/".join(kinds[:i + 1])
+        alone = _ALONE.get(key)
+        if alone is None:
+            cut = L.chain_language(kinds[:i + 1], False, False)
+            try:
+                lg2 = LanguageGraph(cut)
+                alone = lg2._get_attacks_for_asset_type(t)
+            except Exception as e:
+                r.check("C03.no-crash", False, FN, "prefix language raised %s" % type(e).__name__,
+                        "construct-raises:" + type(e).__name__)
+                continue
+            alone = _ALONE[key] = {n: copy.deepcopy(alone.get(n)) for n in ("s", "u")}
         here = first.get(t)
         if here is None:
             continue
